@@ -8,9 +8,20 @@ uninterrupted run after every further Step; advance one of (original, copy) and 
 real cost calls made while a copy advances == growth of its `evaluations` (and of its evaluation monitor).
 
 Correspondence (Lean model): (a) the solver model S restarted from the snapshot READ OFF THE RESTORED REAL SOLVER
-(`de-resume`, `nm-resume`, `ctl-resume`) must reproduce the real continuation bit for bit - if the real code read
-any state outside the snapshot record of Model/Checkpoint.lean this diverges; (b) the aliasing model of the
-shared counter / monitor cells (`alias`) against real solver objects under decorate / call / pickle / deepcopy."""
+(`de-resume`, `nm-resume`, `ctl-resume`, `pw-resume`) must reproduce the real continuation bit for bit - if the real
+code read any state outside the snapshot records of Model/Checkpoint.lean / Model/PowellResume.lean this diverges;
+Powell's direction-set solver is `PowellS.stepAt` (the real `_Step` with Brent as a recorded oracle) restarted from
+the `PwSnap` read off the solver restored by SaveSolver+LoadSolver, dill, copy.deepcopy and from every periodic
+dump; `pw-dump`: the state found in a periodic restart file is the model's mid-iteration state `midDump`;
+`pw-share`: solver objects with a pointer to their direction-set array (`stepObj` / `deepCopyObj`);
+(b) the aliasing model of the shared counter / monitor cells (`alias`) against real solver objects under
+decorate / call / pickle / deepcopy.
+
+Independence monitors: every copy ever taken (SaveSolver+LoadSolver, dill, deepcopy; at every boundary) stays alive
+to the end of the original's run and must still show the state it had; per boundary one copy is never advanced
+("idle"), must not move while its siblings / the original run, and must still resume exactly after the original
+has finished; per boundary one copy is itself copied again through a second path (copy of a copy) and the
+second-generation copy is checked like a first-generation one, with its parent as its original."""
 import os, sys, io, time, json, copy, random as _random, tempfile, shutil, hashlib, contextlib, collections
 import numpy as np
 import common
@@ -26,6 +37,10 @@ THEOREMS = ["MysticVerif.C06." + t for t in [
     "resume_equals_uninterrupted_nm", "nm_step_congr",
     "resume_equals_uninterrupted_ctl", "ctl_step_congr",
     "powell_boundary_resume", "powell_midstep_dump_diverges",
+    "powellS_step_congr", "powellS_steps_congr", "powellS_resume", "powellS_resume_twice", "powellS_reach_eq_steps",
+    "resume_equals_uninterrupted_powell", "powellS_restart_index", "powellS_dump_completion",
+    "powellS_snapshot_must_carry_internals", "powellS_snapshot_must_carry_direc", "powellS_midstep_dump_diverges",
+    "powellS_step_frame", "powellS_deepcopy_independent", "powellS_shared_direc_not_independent",
     "linked_counts", "copies_independent", "pickle_preserves_links", "pickle_copy_disjoint", "restored_counts_own",
     "deepcopy_as_implemented_unlinks", "deepcopy_copy_stops_counting", "deepcopy_stops_counting_witness",
     "deepcopy_disjoint", "redecorate_relinks"]]
@@ -128,7 +143,7 @@ class Rec(object):
 
 # ---------------------------------------------------------------- specs
 def gen_case(rng, tier):
-    solver = rng.choice(["DE", "DE2", "NM", "Powell", "DE", "NM"])
+    solver = rng.choice(["DE", "DE2", "NM", "Powell", "DE", "NM", "Powell"])
     nmax = 12 if tier == "quick" else 60
     if tier == "quick":
         n = rng.randint(4, nmax) if solver != "Powell" else rng.randint(4, 8)
@@ -344,13 +359,15 @@ def advance(a, rec, kw):
     ACTOR[0] = a.name
     s = a.s
     c0 = CALLS[(a.name, "cost")]; e0 = int(s.evaluations); m0 = len(s._evalmon); t0 = len(rec.trials); n0 = len(s._stepmon)
+    l0 = len(rec.linesearch)
     _SINK.seek(0); _SINK.truncate()
     with contextlib.redirect_stdout(_SINK):
         msg = s.Step(*a.cost_args, **kw)
     a.rs = rng_state()
     ACTOR[0] = "-"
     return {"msg": msg, "real": CALLS[(a.name, "cost")] - c0, "devals": int(s.evaluations) - e0,
-            "dmon": len(s._evalmon) - m0, "trials": [t for _, _, t in rec.trials[t0:]], "dstep": len(s._stepmon) - n0}
+            "dmon": len(s._evalmon) - m0, "trials": [t for _, _, t in rec.trials[t0:]], "dstep": len(s._stepmon) - n0,
+            "ls": rec.linesearch[l0:]}
 
 
 def linked_bits(s):
@@ -435,7 +452,7 @@ def modelable(spec):
         return False
     if spec["solver"] == "NM" and spec["dim"] > 15:
         return False
-    return spec["solver"] in ("DE", "DE2", "NM")
+    return spec["solver"] in ("DE", "DE2", "NM", "Powell")
 
 
 def run_case(spec, gen, hist, tier):
@@ -463,12 +480,20 @@ def run_case(spec, gen, hist, tier):
         except Exception:
             return False
 
-    def check_copy(path, C, i, SA, MA, first_stop, orig_actor):
-        """C was just produced at cut i (the original then had the state SA[i]); runs it to the end of the run."""
-        tag = "%s/%s" % (path, type(C.s).__name__)
+    def check_copy(path, C, i, SA, MA, first_stop, orig_actor, max_steps=None, lineage=None, inherit_f5=False, nest=None):
+        """C was just produced at cut i (the state SA[i]) from `orig_actor`; runs it to the end of the run (or `max_steps`).
+        lineage: the restore paths that led to C (a copy of a copy has two); nest=(k, path2): after its k-th Step C is
+        itself copied through path2 and that second-generation copy is checked the same way, with C as its original."""
+        lineage = lineage or (path,)
+        label = "-of-".join(reversed(lineage))
+        tag = "%s/%s" % (label, type(C.s).__name__)
+        f5_possible = "deepcopy" in lineage
         s0 = snap(C.s)
-        C.start_snap = s0; C.history = []; C.term = [term_now(C.s)]
+        C.start_snap = s0; C.history = []; C.term = [term_now(C.s)]; C.in_f5 = inherit_f5; C.child = None
         base_skip = ("saveiter",) if path == "periodic" else ()
+        if inherit_f5:
+            # a copy of a deep copy that had stopped counting: the frozen counter / evaluation monitor travel with it (F5)
+            base_skip = base_skip + COUNT_FIELDS + ("maxfun",)
         pw_periodic = (path == "periodic" and solver == "Powell")
         d0 = diff(SA[i], s0, base_skip + (LIMIT_FIELDS if path == "periodic" else ()))
         if d0:
@@ -483,42 +508,48 @@ def run_case(spec, gen, hist, tier):
                         F("monitor", "periodic/PowellDirectionalSolver/dump/evaluation-monitor-not-a-prefix", "cut %d: evaluation monitor / counter inside the periodic dump is not a prefix of the run's" % i, path=path, cut=i)
             else:
                 F("monitor", tag + "/restored-state-differs", "cut %d: restored solver differs from the original in %s" % (i, d0),
-                  path=path, cut=i, fields=d0, detail=excerpt(SA[i], s0, d0))
+                  path=label, cut=i, fields=d0, detail=excerpt(SA[i], s0, d0))
                 return
         orig_before = snap(orig_actor.s)
-        in_f5 = False
+        in_f5 = inherit_f5
         cont_real = 0
-        for j in range(1, n - i):
+
+        def original_unmoved(when):
+            now = snap(orig_actor.s)
+            dd = diff(orig_before, now)
+            if dd:
+                F("monitor", tag + "/not-independent/original-changed-by-copy", "cut %d: advancing the copy (%s) changed the %s's %s" % (i, when, "original" if len(lineage) == 1 else "parent copy", dd),
+                  path=label, cut=i, fields=dd, detail=excerpt(orig_before, now, dd))
+            return not dd
+        last = n - i if max_steps is None else min(n - i, max_steps + 1)
+        for j in range(1, last):
             try:
                 r = advance(C, rec, dict(kwall))
             except Exception as exc:
                 C.error = exc
                 key = KEY_PW_RAISE if pw_periodic else tag + "/resume-raises/%s" % type(exc).__name__
-                F("monitor", key, "cut %d: Step %d of the restored solver raised %r" % (i, j, exc), path=path, cut=i, step=j)
+                F("monitor", key, "cut %d: Step %d of the restored solver raised %r" % (i, j, exc), path=label, cut=i, step=j)
                 return
             sc = snap(C.s)
             C.history.append((r, sc)); C.term.append(term_now(C.s))
             cont_real += 1 if (r["dstep"] > 0 or r["real"] > 0) else 0
             if j == 1:
                 # independence: the copy advanced, the original must not have moved
-                now = snap(orig_actor.s)
-                dd = diff(orig_before, now)
-                if dd:
-                    F("monitor", tag + "/not-independent/original-changed-by-copy", "cut %d: advancing the copy changed the original's %s" % (i, dd),
-                      path=path, cut=i, fields=dd, detail=excerpt(orig_before, now, dd))
+                if not original_unmoved("first Step"):
+                    return
             # each copy counts its own evaluations
-            if path == "deepcopy" and j == 1:
+            if path == "deepcopy" and j == 1 and len(lineage) == 1 and max_steps is None:
                 H("deepcopy:first-step:%s" % ("counts" if r["devals"] == r["real"] else "does-not-count") + (":redecorated" if spec["mode"] == "fresh" else ""))
             counted_ok = (r["devals"] == r["real"])
             mon_ok = (sc["evalmon_x"] is None) or (r["dmon"] == r["real"])
             if not (counted_ok and mon_ok):
-                if path == "deepcopy" and r["devals"] in (0, r["real"]) and r["dmon"] in (0, r["real"]):
-                    in_f5 = True
-                    F("monitor", KEY_F5, "cut %d, Step %d of the deep copy: %d real cost calls, evaluations grew by %d, evaluation monitor by %d"
-                      % (i, j, r["real"], r["devals"], r["dmon"]), path=path, cut=i, step=j)
+                if f5_possible and r["devals"] in (0, r["real"]) and r["dmon"] in (0, r["real"]):
+                    in_f5 = True; C.in_f5 = True
+                    F("monitor", KEY_F5, "cut %d, Step %d of the deep copy%s: %d real cost calls, evaluations grew by %d, evaluation monitor by %d"
+                      % (i, j, "" if len(lineage) == 1 else " (%s)" % label, r["real"], r["devals"], r["dmon"]), path=label, cut=i, step=j)
                 else:
                     F("monitor", tag + "/copy-does-not-count-its-own-evaluations", "cut %d, Step %d: %d real cost calls, evaluations grew by %d, evaluation monitor by %d"
-                      % (i, j, r["real"], r["devals"], r["dmon"]), path=path, cut=i, step=j)
+                      % (i, j, r["real"], r["devals"], r["dmon"]), path=label, cut=i, step=j)
             # resume == uninterrupted
             skip = base_skip
             if in_f5:
@@ -529,7 +560,7 @@ def run_case(spec, gen, hist, tier):
                     break
             if r["msg"] != MA[i + j] and not pw_periodic:
                 F("monitor", tag + "/resume-diverges", "cut %d, Step %d: restored solver returned %r, the uninterrupted run %r" % (i, j, r["msg"], MA[i + j]),
-                  path=path, cut=i, step=j)
+                  path=label, cut=i, step=j)
                 return
             dj = diff(SA[i + j], sc, skip)
             if dj:
@@ -538,11 +569,41 @@ def run_case(spec, gen, hist, tier):
                       path=path, cut=i, step=j, fields=dj)
                 else:
                     F("monitor", tag + "/resume-diverges", "cut %d: %d Step(s) after the restore, %s differ from the uninterrupted run" % (i, j, dj),
-                      path=path, cut=i, step=j, fields=dj, detail=excerpt(SA[i + j], sc, dj))
+                      path=label, cut=i, step=j, fields=dj, detail=excerpt(SA[i + j], sc, dj))
                 return
+            if nest is not None and j == nest[0] and i + j < n - 1 and not pw_periodic:
+                # ---------- a copy of the copy: restored again through another path, with C as ITS original
+                _random.setstate(C.rs[0]); np.random.set_state(C.rs[1])
+                D = None
+                try:
+                    ds = make_copy(nest[1], C.s, tmp, 5000 + 100 * i + j, spec)
+                    D = Actor("%s<%s@%d+%d" % (nest[1], C.name, i, j), ds, None, None)
+                except Exception as exc:
+                    F("monitor", "%s-of-%s/%s/copy-raises/%s" % (nest[1], label, type(C.s).__name__, type(exc).__name__), "cut %d+%d: %r" % (i, j, exc), path=label, cut=i)
+                finally:
+                    C.rs = rng_state()
+                after_copy = snap(C.s)
+                dd = diff(sc, after_copy)
+                if dd:
+                    F("monitor", "copying-changes-the-original/%s" % type(C.s).__name__, "cut %d+%d (copy of a copy): %s" % (i, j, dd), cut=i, fields=dd)
+                if D is not None:
+                    D.rs = C.rs; D.cost_args = copy_cost_args(spec, D.s)
+                    check_copy(nest[1], D, i + j, SA, MA, first_stop, C, lineage=lineage + (nest[1],), inherit_f5=in_f5)
+                    D.final = snap(D.s); C.child = D
+                    H("copy-of-copy:%s-of-%s" % (nest[1], label))
+        # the original must not have moved while the copy ran to the end (in-place updates - Powell's direction set,
+        # DE's population rows - happen in some Steps only)
+        original_unmoved("all its Steps")
+        if C.child is not None:
+            # ... and the second-generation copy must not have moved while its parent finished the run
+            dd = diff(C.child.final, snap(C.child.s))
+            if dd:
+                F("monitor", "%s/%s/not-independent/copy-changed-by-original" % (C.child.name.split("<")[0] + "-of-" + label, type(C.s).__name__),
+                  "cut %d: advancing the parent copy changed the second-generation copy's %s" % (i, dd), path=label, cut=i, fields=dd)
         if cont_real >= 2:
             state["continued"] += 1
-        H("resumed:%s" % path)
+        if max_steps is None:
+            H("resumed:%s" % label if len(lineage) > 1 else "resumed:%s" % path)
 
     performed = 0; first_stop = None; SA = []; MA = []
     try:
@@ -578,6 +639,10 @@ def run_case(spec, gen, hist, tier):
             B = Actor("B", sB, rng_state(), (costB,))
             introspect_ok = None
             prev = []
+            watch = []          # (label, actor, snapshot it must still show, cut): every copy ever made stays alive to the end
+            idle = []           # copies that are never advanced while the original finishes its run
+            P3 = ("saveload", "dill", "deepcopy")
+            rot = spec["seed"] % 9
             for i in range(n):
                 kw = dict(kwall)
                 if i == 0:
@@ -592,9 +657,10 @@ def run_case(spec, gen, hist, tier):
                     F("monitor", "saving-perturbs-the-original/%s" % type(sB).__name__, "Step %d of the run that was saved/copied at every boundary differs from the untouched run in %s" % (i + 1, dB),
                       cut=i, fields=dB, detail=excerpt(SA[i], sb, dB))
                     break
-                # independence: the original advanced, the (finished) copies of the previous cut must not have moved
-                for path, C in prev:
-                    dd = diff(C.final, snap(C.s))
+                # independence: the original advanced, the copies of the previous cut (finished ones and the idle one)
+                # must not have moved
+                for path, C, want in prev:
+                    dd = diff(want, snap(C.s))
                     if dd:
                         F("monitor", "%s/%s/not-independent/copy-changed-by-original" % (path, type(C.s).__name__), "cut %d: advancing the original changed the copy's %s" % (i - 1, dd),
                           path=path, cut=i - 1, fields=dd)
@@ -603,31 +669,63 @@ def run_case(spec, gen, hist, tier):
                     introspect_ok = bool(linked_bits(sB))
                 if i == n - 1:
                     break
-                made = []
-                for path in ("saveload", "dill", "deepcopy"):
+                made = []; idle_now = None
+                ipath = P3[(rot + i) % 3]
+                for path in P3 + ("idle:" + ipath,):
                     # saving / copying happens in the original's own random context: a save that drew random numbers
                     # would move the original (and is then seen as a perturbation of the run)
                     _random.setstate(B.rs[0]); np.random.set_state(B.rs[1])
                     try:
-                        cs = make_copy(path, sB, tmp, i, spec)
+                        cs = make_copy(path.split(":")[-1], sB, tmp, i if ":" not in path else 3000 + i, spec)
                     except Exception as exc:
-                        F("monitor", "%s/%s/copy-raises/%s" % (path, type(sB).__name__, type(exc).__name__), "cut %d: %r" % (i, exc), path=path, cut=i)
+                        F("monitor", "%s/%s/copy-raises/%s" % (path.split(":")[-1], type(sB).__name__, type(exc).__name__), "cut %d: %r" % (i, exc), path=path, cut=i)
                         continue
                     finally:
                         B.rs = rng_state()
                     C = Actor("%s@%d" % (path, i), cs, B.rs, None)
                     C.cost_args = copy_cost_args(spec, cs)
+                    if ":" in path:
+                        C.cut = i; C.path = ipath; C.start = snap(cs)
+                        d0 = diff(sb, C.start)
+                        if d0:
+                            C = None        # reported by its advanced sibling (restored-state-differs)
+                        idle_now = C
+                        continue
                     if introspect_ok:
                         H("linked-at-restore:%s:%s" % (path, linked_bits(cs)))
                     made.append((path, C))
                 dd = diff(sb, snap(sB))
                 if dd:
                     F("monitor", "copying-changes-the-original/%s" % type(sB).__name__, "cut %d: %s" % (i, dd), cut=i, fields=dd)
+                # one of the three copies is itself copied once more (a copy of a copy), through a rotating second path
+                npath = P3[(rot // 3 + i) % 3]; n2path = P3[(rot + 2 * i + 1) % 3]
                 for path, C in made:
-                    check_copy(path, C, i, SA, MA, first_stop, B)
+                    nest = (1 + (rot + i) % 2, n2path) if path == npath else None
+                    check_copy(path, C, i, SA, MA, first_stop, B, nest=nest)
                     C.final = snap(C.s)
                     maybe_model(spec, requests, path, C, i)
-                prev = made
+                prev = [(path, C, C.final) for path, C in made]
+                if idle_now is not None:
+                    # the idle copy of this boundary: its siblings ran to the end, it must not have moved
+                    dd = diff(idle_now.start, snap(idle_now.s))
+                    if dd:
+                        F("monitor", "%s/%s/not-independent/idle-copy-changed-by-sibling-copies" % (ipath, type(sB).__name__), "cut %d: advancing other copies of the same solver changed a copy that was never advanced: %s" % (i, dd),
+                          path=ipath, cut=i, fields=dd)
+                    else:
+                        prev.append((ipath, idle_now, idle_now.start)); idle.append(idle_now)
+                watch += prev
+            # the original has finished its run: every copy ever taken (advanced to the end, or never advanced) must still
+            # show the state it had when we last looked
+            for path, C, want in watch:
+                dd = diff(want, snap(C.s))
+                if dd:
+                    F("monitor", "%s/%s/not-independent/copy-changed-by-original" % (path, type(C.s).__name__), "copy taken at cut %s: the original's later Steps changed the copy's %s" % (getattr(C, "cut", C.name), dd),
+                      path=path, fields=dd)
+            H("copies-alive-to-the-end:%d" % min(len(watch), 40))
+            # ... and a copy that was never advanced while the original ran to the end still resumes exactly
+            for I in idle:
+                check_copy(I.path, I, I.cut, SA, MA, first_stop, B, max_steps=1)
+                H("idle-copy-resumed-after-the-original-finished:%s" % I.path)
 
             # ---------- P: the same run with SetSaveFrequency; every dump it writes is restored
             from mystic.solvers import LoadSolver
@@ -668,6 +766,13 @@ def run_case(spec, gen, hist, tier):
                 C.cost_args = copy_cost_args(spec, cs)
                 check_copy("periodic", C, i, SA, MA, first_stop, P)
                 maybe_model(spec, requests, "periodic", C, i)
+                if (solver == "Powell" and i >= 2 and not r["msg"] and modelable(spec) and getattr(C, "start_snap", None)
+                        and diff(SA[i], C.start_snap, ("saveiter",) + LIMIT_FIELDS)):
+                    # the dump itself: what `__save_state()` pickled in the MIDDLE of this Step must be the model's `midDump`
+                    # of the state the Step started from (F32 tied to the code, not only witnessed in the model)
+                    line, cmp = pw_dump_request(spec, SA[i - 1], r, C.start_snap)
+                    if line:
+                        requests.append((line, cmp, {"spec": view(spec), "path": "periodic", "cut": i, "which": "pw-dump"}))
 
             # ---------- S: original and copies are both run to termination with Solve() after the same new limit
             m = spec.get("solve_cut", 0) % max(n - 1, 1)
@@ -735,6 +840,12 @@ def run_case(spec, gen, hist, tier):
                         F("monitor", tag + "/solve-after-restore-diverges", "cut %d: after SetEvaluationLimits(generations=+%d) and Solve() on both, %s differ" % (m, extra_g, dj),
                           path=path, cut=m, fields=dj, detail=excerpt(ref, sc, dj))
                     H("solved:%s" % path)
+
+            # ---------- D: Powell's direction set is an array updated IN PLACE: objects that share it / own it
+            if solver == "Powell" and modelable(spec):
+                rq = pw_share_stage(spec, tmp, rec, kwall, SA, MA, H)
+                if rq:
+                    requests.append(rq)
     finally:
         shutil.rmtree(tmp, ignore_errors=True)
     for key, cnt in emitted.items():
@@ -750,17 +861,15 @@ def maybe_model(spec, requests, path, C, i):
     """model S restarted from the snapshot read off the restored real solver must reproduce its continuation"""
     if not getattr(C, "history", None) or C.error:
         return
-    if path not in ("saveload", "periodic", "dill"):
-        return
     solver = spec["solver"]
-    if solver == "Powell":
+    if path not in ("saveload", "periodic", "dill") and not (path == "deepcopy" and solver == "Powell"):
         return
     hist = C.history
     # only iterations that really ran, up to and including the first stop
     steps = []
     for r, sc in hist:
-        if r["dstep"] <= 0:
-            break
+        if r["dstep"] <= 0 and not (solver == "Powell" and r["real"] > 0):
+            break               # (Powell's generation 1 writes no step record)
         steps.append((r, sc))
         if r["msg"]:
             break
@@ -843,13 +952,296 @@ def maybe_model(spec, requests, path, C, i):
                     return [("NM/nm-resume/diverges", "model restarted from the restored solver's snapshot differs from the real continuation at step %d (model branch %s): %s" % (k + 1, m.get("branch"), "; ".join(dd)))]
             return []
         requests.append((line, compare, dict(meta, which="nm-resume")))
+    elif solver == "Powell":
+        # (a deep copy that has stopped counting - F5 - does not log into its evaluation monitor either: the records
+        # the model appends are then compared by their number only)
+        counted = all(r["dmon"] == r["real"] for r, _ in steps)
+        line, compare = pw_resume_request(spec, setup, start, steps, check_log=counted)
+        if line:
+            requests.append((line, compare, dict(meta, which="pw-resume" + (":from-mid-iteration-dump" if path == "periodic" else ":after-deepcopy" if path == "deepcopy" else ""))))
+
+
+# ---------------------------------------------------------------- Powell-in-S restarted from the restored solver's PwSnap
+def ls_sexp(lsrec):
+    """one recorded `_linesearch_powell` call -> the oracle record of Model/PowellS.lean (None: the returned point is
+    none of the evaluated ones)"""
+    p, xi, fret, xn, xin, pts = lsrec
+    idx = next((j for j, (z, v) in enumerate(pts) if same_vec(z, xn)), None)
+    if idx is None:
+        return None
+    return "((pre (%s)) (y %s) (post (%s)) (xi %s))" % (" ".join(fl(z) for z, _ in pts[:idx]), fl(xn),
+                                                        " ".join(fl(z) for z, _ in pts[idx + 1:]), fl(xin))
+
+
+def pw_state_sexp(sn):
+    """the PwSnap (Model/PowellResume.lean) read off a real PowellDirectionalSolver's snapshot `sn` (None: not a state
+    `_Step` can start from, e.g. `_direc is None`)"""
+    if sn.get("direc") is None or sn["direc"][0] == "repr":
+        return None
+    pop = unarr(sn["population"]); popE = unarr(sn["popEnergy"])
+    it = sn["internals"]
+    x1 = unarr(it[0]); fx = unarr(it[1]); delta = unarr(it[3])
+    sx = unarr(sn["stepmon_x"]); sy = unarr(sn["stepmon_y"]); eh = unarr(sn["energy_history"])
+    if not isinstance(fx, float) or not isinstance(delta, float) or not sx or len(eh) not in (len(sy), len(sy) + 1):
+        return None
+    if any(not isinstance(y, float) for y in sy):
+        return None
+    nlog = 0 if sn["evalmon_x"] is None else sn["evalmon_x"][0][0]
+    return "(x %s) (fval %s) (x1 %s) (fx %s) (bigind %d) (delta %s) (direc %s) (nlog %d) (steplog (%s)) (pending %s)" % (
+        fl(pop[0]), f2b(popE[0]), fl(x1), f2b(fx), it[2], f2b(delta), fll(unarr(sn["direc"])), nlog,
+        " ".join("(%s %s)" % (fl(x), f2b(y)) for x, y in zip(sx, sy)), "true" if len(eh) == len(sy) + 1 else "false")
+
+
+def pw_fields(tokens):
+    toks = list(tokens)
+    return {toks[i]: toks[i + 1] for i in range(0, len(toks) - 1, 2)}
+
+
+def pw_state_diffs(m, sc, compare_internals=True):
+    """model state `m` (showPwFull) against the real solver's snapshot `sc`: the fields `_Step` itself writes"""
+    dd = []
+    if not same_vec(solvermodel.fvec(m["x"]), unarr(sc["population"])[0]):
+        dd.append("population[0] model=%r impl=%r" % (solvermodel.fvec(m["x"]), unarr(sc["population"])[0]))
+    if not same_float(b2f(m["fval"]), unarr(sc["popEnergy"])[0]):
+        dd.append("popEnergy[0] model=%r impl=%r" % (b2f(m["fval"]), unarr(sc["popEnergy"])[0]))
+    it = sc["internals"]
+    if compare_internals:
+        if not same_vec(solvermodel.fvec(m["x1"]), unarr(it[0])):
+            dd.append("__internals x1 model=%r impl=%r" % (solvermodel.fvec(m["x1"]), unarr(it[0])))
+        if not same_float(b2f(m["fx"]), unarr(it[1])):
+            dd.append("__internals fx model=%r impl=%r" % (b2f(m["fx"]), unarr(it[1])))
+        if int(m["bigind"]) != it[2]:
+            dd.append("__internals bigind model=%s impl=%d" % (m["bigind"], it[2]))
+        if not same_float(b2f(m["delta"]), unarr(it[3])):
+            dd.append("__internals delta model=%r impl=%r" % (b2f(m["delta"]), unarr(it[3])))
+    md = [solvermodel.fvec(r) for r in m["direc"]]; idr = unarr(sc["direc"]) if sc.get("direc") is not None else None
+    if idr is None or len(md) != len(idr) or not all(same_vec(a, b) for a, b in zip(md, idr)):
+        dd.append("_direc model=%r impl=%r" % (md, idr))
+    return dd
+
+
+def evalmon_checksum(sc, n0, scalar):
+    """checksum of the evaluation-monitor records after the first n0 (None: not comparable)"""
+    if not scalar or sc["evalmon_x"] is None or sc["evalmon_x"][0] == "repr" or sc["evalmon_y"][0] == "repr":
+        return None
+    xs = unarr(sc["evalmon_x"]); ys = unarr(sc["evalmon_y"])
+    if len(xs) != len(ys) or any(not isinstance(y, float) for y in ys):
+        return None
+    return solvermodel.log_checksum(list(zip(xs, ys))[n0:])
+
+
+def pw_resume_request(spec, setup, start, steps, check_log=True):
+    """`PowellS.stepAt` iterated from the PwSnap read off the RESTORED real PowellDirectionalSolver, against the
+    recording of the line searches the restored solver itself made: everything `_Step` computes besides Brent -
+    the generation dispatch, constraints, box test, cost, penalty, delta / bigind bookkeeping, extrapolation test,
+    in-place direction replacement, __internals, step records, deferred energy, evaluation log - is recomputed from
+    the snapshot alone and compared bit for bit after every Step"""
+    st = pw_state_sexp(start)
+    if st is None:
+        return None, None
+    recs = []; lss = []
+    for r, _ in steps:
+        for l in r["ls"]:
+            sx = ls_sexp(l)
+            if sx is None:
+                return None, None       # C01's line-search contract check reports this
+            recs.append(sx); lss.append(l)
+    line = "C06 pw-resume %s %s (steps %d) (ls (%s))" % (setup, st, len(steps), " ".join(recs))
+    scalar = spec["cost"][0] == "scalar"
+    n0 = 0 if start["evalmon_x"] is None else start["evalmon_x"][0][0]
+
+    def compare(reply, steps=steps):
+        r = parse_reply(reply)
+        if r[0] != "ok" or len(r[1]["steps"]) != len(steps):
+            return [("Powell/pw-resume/model-reply", "model replied %r" % (reply[:200],))]
+        calls = 0; nls = 0
+        for k, (mt, (rr, sc)) in enumerate(zip(r[1]["steps"], steps)):
+            m = pw_fields(mt)
+            calls += rr["real"]; nls += len(rr["ls"])
+            dd = pw_state_diffs(m, sc)
+            if int(m["nlog"]) - n0 != calls:
+                dd.append("cost calls model=%d impl=%d" % (int(m["nlog"]) - n0, calls))
+            if int(m["nls"]) != nls:
+                dd.append("line searches model=%s impl=%d" % (m["nls"], nls))
+            if not rr["msg"]:
+                # (a Step that detects the stop ends in Finalize, which appends a record of its own: control loop, C05)
+                ns = len(unarr(sc["stepmon_y"])); pend = len(unarr(sc["energy_history"])) == ns + 1
+                if int(m["nstep"]) != ns:
+                    dd.append("step records model=%s impl=%d" % (m["nstep"], ns))
+                if (m["pending"] == "true") != pend:
+                    dd.append("deferred energy model=%s impl=%s" % (m["pending"], pend))
+                if int(m["gens"]) != sc["generations"]:
+                    dd.append("generations model=%s impl=%d" % (m["gens"], sc["generations"]))
+            want = evalmon_checksum(sc, n0, scalar) if check_log else None
+            if want is not None and int(m["logsum"]) != want:
+                dd.append("the (x, cost x) records the model appends to the evaluation monitor differ from the real ones")
+            if dd:
+                return [("Powell/pw-resume/diverges", "Powell model restarted from the restored solver's snapshot differs from the real continuation at Step %d: %s" % (k + 1, "; ".join(dd)[:900]))]
+        reqs = r[1]["reqs"]
+        if len(reqs) != len(lss) or not all(same_vec(solvermodel.fvec(q[0]), l[0]) and same_vec(solvermodel.fvec(q[1]), l[1]) for q, l in zip(reqs, lss)):
+            bad = next((j for j, (q, l) in enumerate(zip(reqs, lss)) if not (same_vec(solvermodel.fvec(q[0]), l[0]) and same_vec(solvermodel.fvec(q[1]), l[1]))), min(len(reqs), len(lss)))
+            return [("Powell/pw-resume/linesearch-requests-diverge", "model requested %d searches, the restored solver %d; first difference at #%d" % (len(reqs), len(lss), bad))]
+        last_r, last = steps[-1]
+        sl = r[1]["steplog"]; ix = unarr(last["stepmon_x"]); iy = unarr(last["stepmon_y"])
+        nrec = len(iy)
+        if last_r["msg"] and nrec == len(sl) + 1:
+            nrec = len(sl)              # Finalize's record
+        if len(sl) != nrec or not all(same_vec(solvermodel.fvec(a[0]), x) and same_float(b2f(a[1]), y) for a, x, y in zip(sl, ix, iy)):
+            return [("Powell/pw-resume/step-monitor-diverges", "model step log %r != restored solver's %r" % ([(solvermodel.fvec(a[0]), b2f(a[1])) for a in sl][-3:], list(zip(ix, iy))[-3:]))]
+        if not last_r["msg"] and not same_vec(solvermodel.fvec(r[1]["hist"]), unarr(last["energy_history"])):
+            return [("Powell/pw-resume/energy-history-diverges", "model %r != restored solver's %r" % (solvermodel.fvec(r[1]["hist"])[-4:], unarr(last["energy_history"])[-4:]))]
+        return []
+    return line, compare
+
+
+def pw_share_stage(spec, tmp, rec, kwall, SA, MA, H):
+    """three real PowellDirectionalSolver objects - the run R (object 0), a pickled copy that is GIVEN R's `_direc` array
+    (object 1: what a copy protocol that forgot the array would produce) and a deep copy that owns its array (object 2)
+    - are stepped in a generated order; after every op the state each object shows is compared with the pointer model
+    `PowellS.stepObj` / `deepCopyObj`.  VERDICT: objects 0 and 2 only (observable behaviour of legitimate copies).
+    Object 1 exists only through harness-made aliasing; whether the array is updated in place or replaced is an
+    internal of `_Step`, so its agreement with `shallowCopyObj` is COUNTED in the histogram and never reported."""
+    import dill
+    n = spec["n"]
+    m = 1 + spec["solve_cut"] % max(n - 2, 1)
+    if m >= n - 1:
+        return None
+    sR, costR = build(spec, tmp, "R")
+    R = Actor("R", sR, rng_state(), (costR,))
+    for i in range(m + 1):
+        kw = dict(kwall)
+        if i == 0:
+            kw.update(first_kwds(spec))
+        r = advance(R, rec, kw)
+        if diff(SA[i], snap(sR)) or r["msg"] != MA[i]:
+            return None
+        if r["msg"]:
+            return None
+    start = snap(sR)
+    st = pw_state_sexp(start)
+    if st is None or (not start["live"]):
+        return None
+    with contextlib.redirect_stdout(_SINK):
+        c = dill.loads(dill.dumps(sR))
+        d = copy.deepcopy(sR) if spec["seed"] % 2 else dill.loads(dill.dumps(sR))
+    c._direc = sR._direc
+    objs = [R, Actor("R:shares-direc", c, R.rs, ()), Actor("R:owns-direc", d, R.rs, ())]
+    ops = ["(shallow 0)", "(deep 0)"]
+    obs = [None, [snap(a.s) for a in objs]]
+    stopped = set()
+    order = _random.Random(spec["seed"] ^ 0x5eed)
+    for _ in range(order.randint(3, 6)):
+        q = order.randrange(3)
+        if q in stopped:
+            continue
+        try:
+            r = advance(objs[q], rec, dict(kwall))
+        except Exception:
+            return None
+        if r["real"] == 0 and r["dstep"] <= 0:
+            break
+        recs = [ls_sexp(l) for l in r["ls"]]
+        if any(x is None for x in recs):
+            return None
+        if r["msg"]:
+            stopped.add(q)
+        ops.append("(step %d (%s))" % (q, " ".join(recs)))
+        obs.append([snap(a.s) for a in objs])
+    if len(ops) < 3:
+        return None
+    line = "C06 pw-share %s %s (ops (%s))" % (solvermodel.setup_sexp(spec), st, " ".join(ops))
+    meta = {"spec": view(spec), "which": "pw-share", "cut": m}
+
+    def compare(reply):
+        rr = parse_reply(reply)
+        if rr[0] != "ok" or len(rr[1]["states"]) != len(obs):
+            return [("Powell/pw-share/model-reply", "model replied %r" % (reply[:200],))]
+        done = set()
+        meta["shared_object_follows_pointer_model"] = True
+        for j, (ms, ob) in enumerate(zip(rr[1]["states"], obs)):
+            if ob is None:
+                continue
+            for q, (mt, sc) in enumerate(zip(ms, ob)):
+                m_ = pw_fields(mt)
+                dd = pw_state_diffs(m_, sc)
+                if q == 1:
+                    if dd:
+                        meta["shared_object_follows_pointer_model"] = False
+                    continue
+                if not sc["live"]:
+                    done.add(q)          # stopped: Finalize has appended its own record (control loop, C05)
+                if q not in done:
+                    ns = len(unarr(sc["stepmon_y"]))
+                    if int(m_["nstep"]) != ns or (m_["pending"] == "true") != (len(unarr(sc["energy_history"])) == ns + 1):
+                        dd.append("step records / deferred energy model=(%s, %s) impl=(%d, %s)" % (m_["nstep"], m_["pending"], ns, len(unarr(sc["energy_history"])) == ns + 1))
+                if dd:
+                    return [("Powell/pw-share/diverges", "after op %d %s, object %d (0 = the run, 2 = deep copy owning its direction set): %s" % (j, ops[j][:40], q, "; ".join(dd)[:800]))]
+        return []
+    return line, compare, meta
+
+
+def pw_share_stats(rep):
+    """did a Step of one object change the direction set another object sees (they share the array) / leave it (own array)"""
+    out = []
+    r = parse_reply(rep)
+    if r[0] != "ok":
+        return out
+    prev = None
+    for ms in r[1]["states"]:
+        cur = [pw_fields(mt)["direc"] for mt in ms]
+        if prev is not None and len(prev) == len(cur) == 3:
+            moved = [a != b for a, b in zip(prev, cur)]
+            if moved[0] and moved[1] and not moved[2]:
+                out.append("pw-share:in-place-replacement-seen-through-the-shared-array")
+            elif moved[2] and not moved[0] and not moved[1]:
+                out.append("pw-share:replacement-in-the-owned-array-only")
+            elif not any(moved):
+                out.append("pw-share:step-without-replacement")
+            else:
+                out.append("pw-share:other")
+        prev = cur
+    return out
+
+
+def pw_dump_request(spec, before, r, dump):
+    """`PowellS.midDump` of the boundary state `before` (with the line searches of the Step that wrote the file)
+    against the state found in the periodic restart file"""
+    st = pw_state_sexp(before)
+    if st is None or dump.get("direc") is None:
+        return None, None
+    recs = [ls_sexp(l) for l in r["ls"]]
+    if any(x is None for x in recs):
+        return None, None
+    line = "C06 pw-dump %s %s (ls (%s))" % (solvermodel.setup_sexp(spec), st, " ".join(recs))
+    scalar = spec["cost"][0] == "scalar"
+    n0 = 0 if before["evalmon_x"] is None else before["evalmon_x"][0][0]
+
+    def compare(reply):
+        rr = parse_reply(reply)
+        if rr[0] != "ok":
+            return [("Powell/pw-dump/model-reply", "model replied %r" % (reply[:200],))]
+        m = pw_fields(rr[1]["dump"])
+        dd = pw_state_diffs(m, dump)
+        ix = unarr(dump["stepmon_x"]); iy = unarr(dump["stepmon_y"]); sl = rr[1]["steplog"]
+        if len(sl) != len(iy) or not all(same_vec(solvermodel.fvec(a[0]), x) and same_float(b2f(a[1]), y) for a, x, y in zip(sl, ix, iy)):
+            dd.append("step monitor model=%r file=%r" % ([(solvermodel.fvec(a[0]), b2f(a[1])) for a in sl][-2:], list(zip(ix, iy))[-2:]))
+        if (m["pending"] == "true") != (len(unarr(dump["energy_history"])) == len(iy) + 1):
+            dd.append("deferred energy model=%s" % m["pending"])
+        if dump["evalmon_x"] is not None and dump["evalmon_x"][0] != "repr" and int(m["nlog"]) != dump["evalmon_x"][0][0]:
+            dd.append("evaluation records model=%s file=%d" % (m["nlog"], dump["evalmon_x"][0][0]))
+        want = evalmon_checksum(dump, n0, scalar)
+        if want is not None and int(m["logsum"]) != want:
+            dd.append("evaluation monitor contents")
+        if dd:
+            return [("Powell/pw-dump/diverges", "the state in the periodic restart file is not the model's mid-iteration state of the Step that wrote it: %s" % "; ".join(dd)[:900])]
+        return []
+    return line, compare
 
 
 def ctl_request(spec, start, C, hist):
     """the control loop of model S restarted from the restored solver's counters / limits / flags"""
     solver = spec["solver"]
-    if solver == "Powell":
-        return None, None          # Powell's deferred step record needs the pre-step view trace.py takes; covered by C05
+    powell = solver == "Powell"
     npop = max(spec["npop"], spec["dim"], 4) if solver in ("DE", "DE2") else 1
     si, se = solvermodel.SCALE[solver]
     N = spec["dim"]
@@ -867,16 +1259,22 @@ def ctl_request(spec, start, C, hist):
         tpost = C.term[k + 1]
         ran = r["dstep"] > 0 or r["real"] > 0
         ns = len(unarr(sc["stepmon_y"]))
+        dS = max(ns - pn, 0)
+        if powell:
+            # the records `_Step` itself writes (generation 0 and generations >= 2, scipy_optimize.py l.660 / l.715);
+            # the one `Finalize` appends at a stop is the control model's own business
+            dS = 1 if (ran and (pn == 0 or pg >= 1)) else 0
         ops.append("(step %s %s %d %d %d)" % ("true" if tprev else "false", "true" if tpost else "false",
-                                               max(sc["evaluations"] - pe, 0), max(sc["generations"] - pg, 0), max(ns - pn, 0)))
+                                               max(sc["evaluations"] - pe, 0), max(sc["generations"] - pg, 0), dS))
         expect.append((solvermodel.msg_kind(r["msg"]), ran, sc["generations"], sc["evaluations"], ns, sc["maxiter"], sc["maxfun"], sc["live"]))
         pg, pe, pn = sc["generations"], sc["evaluations"], ns
         tprev = tpost
     if not ops:
         return None, None
-    line = "C06 ctl-resume (state %d %d %d %s %s %s %s) (scale %d %d) (powell false) (ops (%s))" % (
+    line = "C06 ctl-resume (state %d %d %d %s %s %s %s) (scale %d %d) (powell %s) (ops (%s))" % (
         g0, e0, n0, solvermodel.lim_str(start["maxiter"]), solvermodel.lim_str(start["maxfun"]),
-        "true" if start["earlyexit"] else "false", "true" if start["live"] else "false", N * npop * si, N * npop * se, " ".join(ops))
+        "true" if start["earlyexit"] else "false", "true" if start["live"] else "false", N * npop * si, N * npop * se,
+        "true" if powell else "false", " ".join(ops))
 
     def compare(reply):
         r = parse_reply(reply)
@@ -991,6 +1389,30 @@ def alias_case(rng, hist):
     return line, compare, {"which": "alias", "ops": ops}
 
 
+def pw_reply_stats(rep, line):
+    """which paths of `_Step` a replayed Powell continuation went through (coverage histogram)"""
+    out = []
+    r = parse_reply(rep)
+    if r[0] != "ok" or not r[1]["steps"]:
+        return out
+    prev_nls = 0; prev_direc = None
+    dim = None
+    for mt in r[1]["steps"]:
+        m = pw_fields(mt)
+        dim = len(m["x"])
+        nls = int(m["nls"]) - prev_nls; prev_nls = int(m["nls"])
+        g = int(m["gens"])
+        if g == 1:
+            out.append("pw-resume-step:generation-1-dispatch")
+        elif nls > dim:
+            out.append("pw-resume-step:extrapolation-search-taken")
+            out.append("pw-resume-step:direction-replaced:bigind=%s" % ("last" if prev_direc is not None and m["direc"][:-1] == prev_direc[:-1] else "other"))
+        else:
+            out.append("pw-resume-step:no-extrapolation-search")
+        prev_direc = m["direc"]
+    return out
+
+
 # ---------------------------------------------------------------- shard
 def run_shard(pid, seed, shard, ncases, tier, extra):
     common.import_mystic()
@@ -1024,6 +1446,14 @@ def run_shard(pid, seed, shard, ncases, tier, extra):
             c = dict(meta); c["request"] = line[:3000]; c["model_reply"] = rep[:3000]
             c.setdefault("gen", {"seed": seed, "shard": shard, "tier": tier})
             findings.append(Finding("correspondence", key, what, c))
+        if meta["which"].startswith("pw-resume"):
+            for k in pw_reply_stats(rep, line):
+                hist[k] = hist.get(k, 0) + 1
+        if meta["which"] == "pw-share":
+            for k in pw_share_stats(rep):
+                hist[k] = hist.get(k, 0) + 1
+            k = "pw-share:(informational)-object-given-the-run's-array-follows-the-pointer-model:%s" % meta.get("shared_object_follows_pointer_model")
+            hist[k] = hist.get(k, 0) + 1
         if meta["which"] == "nm-resume":
             for b in solvermodel.nm_branches(rep):
                 hist["nm-resume-branch:%s" % b] = hist.get("nm-resume-branch:%s" % b, 0) + 1
@@ -1035,7 +1465,7 @@ def main(tier, seed):
     t0 = time.time()
     proof = framework.proof_stage(PID, MODULE, THEOREMS, tier)
     if tier == "quick":
-        nshards, per, budget = 16, 26, 50
+        nshards, per, budget = 16, 26, 44
     else:
         nshards, per, budget = 64, 24, 170
     run = framework.run_shards("c06", "run_shard", PID, seed, nshards, per, tier, extra={"budget": budget})
@@ -1049,13 +1479,18 @@ def main(tier, seed):
             "default/Monitor/Verbose/Logging/VerboseLogging; SetSaveFrequency 1..3; sticky settings given to the first Step only; continuation by Step() / "
             "Step(own raw cost) / Step(by-reference cost) / Step(equal but new cost object)). EXHAUSTIVE over the generation boundaries k of the run "
             "(run length <= %d): at every k the solver is copied by SaveSolver+LoadSolver, dill.dumps/loads, copy.deepcopy and from every periodic dump; "
-            "each copy is continued to the end under the saved random state and compared with the untouched run after every Step. "
+            "each copy is continued to the end under the saved random state and compared with the untouched run after every Step; the original is compared with its "
+            "own snapshot after the copy's first Step and after its last; every copy stays alive until the original has finished and must not have moved; one never-advanced "
+            "copy per boundary (rotating path) must not move and must resume exactly afterwards; one copy per boundary is copied again (9 path pairs rotating) and the "
+            "second-generation copy is checked the same way. Powell cases additionally: three objects (run, copy, deep copy) stepped in a generated order (pw-share). "
             "non-trivial = at least 3 iterations really ran and at least one copy performed >= 2 further real iterations." % (12 if tier == "quick" else 60))
     tb = ["Lean 4.33 kernel; axioms per theorem under coverage.theorems (subset of propext, Classical.choice, Quot.sound)",
           "pickling itself (dill, copy.deepcopy, file IO) is NOT modelled: the clause 'a restore gives back the saved state' is checked by the monitor only",
-          "Model/Checkpoint.lean snapshot records + model S are tied to /repo by restarting the model from the snapshot read off the restored REAL solver (histogram model:de-resume / nm-resume / ctl-resume)",
+          "Model/Checkpoint.lean / Model/PowellResume.lean snapshot records + model S are tied to /repo by restarting the model from the snapshot read off the restored REAL solver (histogram model:de-resume / nm-resume / ctl-resume / pw-resume*)",
+          "Powell: Brent's line search is a recorded oracle (which points it evaluated, which it returned); everything else of _Step is recomputed by PowellS.stepAt from the PwSnap alone; the mid-iteration periodic dump is PowellS.midDump (model:pw-dump)",
+          "PowellS.shallowCopyObj (two objects sharing one direction-set array) is the hypothesis of the witness powellS_shared_direc_not_independent only: object identity inside _Step is not observable through the copies the property talks about, so its agreement with the code is counted (pw-share:(informational)...) and never a verdict",
           "the aliasing model (heap of counter / monitor cells) is tied to /repo by random decorate/call/pickle/deepcopy sequences on real solver objects (histogram model:alias)",
-          "Powell: monitor only (Brent line search not modelled); DE trial vectors are recorded from the real strategy",
+          "DE trial vectors are recorded from the real strategy",
           "attribution of cost calls to the solver being advanced is by a harness-global actor name (single-threaded runs)"]
     assumptions = ["cost / penalty / constraints are deterministic picklable callables (dill by value or by reference)",
                    "the random state restored with a copy is the state at the moment of the save (python random + numpy.random)",
